@@ -18,6 +18,12 @@ def main():
         res = sh.result()
     else:
         res = mod.run_shard(spec)
+    from nv import mon
+    if mon.MONITOR_ERRORS:
+        # a monitor could not observe the tool (an attribute it relies on is gone): nothing this worker saw is believed
+        res["inconclusive"] = list(res.get("inconclusive", [])) + ["monitor blind: " + m for m in mon.MONITOR_ERRORS[:5]]
+        res["violations"] = []
+        res["sig_totals"] = {}
     with open(outf + ".tmp", "w") as f:
         json.dump(res, f, default=str)
     import os
